@@ -154,7 +154,13 @@ func main() {
 		knownHits  []string
 	)
 	for _, r := range rs {
-		obs, an := rules.RunRule(prog, r)
+		allRuleObs, an := rules.RunRule(prog, r)
+		var obs []report.Obligation
+		for _, o := range allRuleObs {
+			if o.AppliesTo(*prop) {
+				obs = append(obs, o)
+			}
+		}
 		for _, a := range an {
 			analysed[a] = true
 		}
@@ -177,9 +183,9 @@ func main() {
 				}
 			}
 		}
-		if len(obs) < r.Floor {
+		if len(allRuleObs) < r.Floor {
 			o := report.Obligation{Rule: r.ID, Construct: "floor", Pos: "-", Status: report.Violated,
-				Detail: fmt.Sprintf("rule matched %d instances, fewer than the %d confirmed by hand", len(obs), r.Floor)}
+				Detail: fmt.Sprintf("rule matched %d instances, fewer than the %d confirmed by hand", len(allRuleObs), r.Floor)}
 			violations = append(violations, o)
 			obs = append(obs, o)
 			st.Violated++
